@@ -37,6 +37,33 @@ CHECKS = {
         "Only property-setter / method mutators are used; histories where a mutator or a cache-less render raises are abandoned.",
         "DESIGN.md §3 C06",
     ),
+    "C14": (
+        "exploration",
+        "offline history checker against a reference model: JSON histories of connect/disconnect/emit/kill/gc executed on the real Signals machinery with uniquely identified handler calls logged at the handler boundary, judged by vmon/models/signals_ref.py",
+        "Exhaustive core (1-3 handlers, 4 in thorough, x 9 per-handler behaviours x disconnect-by-key/args x module API / fresh Signals() x weak args / none x every <=2-op prefix) "
+        "plus random histories over 3 senders x 2 names with nested emits, weak-argument and sender death at every history point followed by gc.collect(), and the real widget "
+        "senders (Button, CheckBox, Edit, list walkers). Clauses: exactly-once, connection order, argument composition, never-after-disconnect / dead weak arg, result truthiness, "
+        "no-op disconnect, rejection of unregistered names, liveness of senders and weak args. Held-on-observed.",
+        "Handlers connected or disconnected during an emit are optional (statement constrains only handlers connected throughout). Disconnect by args removes the earliest identical connection. Handlers never raise.",
+        "DESIGN.md §3 C14, §8",
+    ),
+    "C18": (
+        "exploration",
+        "reference-model monitor: every (foreground, background, depth) case is classified by an independent reader of the documented colour language and xterm palette tables (vmon/models/xterm_colors.py) and AttrSpec's observable results are compared clause by clause; exhaustive over the finite token domains",
+        "Exhaustive: all basic names, h0..h255, #000..#fff, g0..g100, g#00..g#ff at every depth, every ordered arrangement of the 64 setting subsets; per-component 0..255 sweeps of #rrggbb; "
+        "quick samples #000000..#ffffff, thorough sweeps all 2**24 values in bit-reversed stride passes (a budget overrun leaves a uniform sample; below 2**24/64 swept values the run is inconclusive). "
+        "Clauses: accept/reject with AttrSpecError only, observers never raise, nearest palette entry, RGB tables, smallest colour depth, settings, round trip, hash, idempotent descriptions.",
+        "'Unicode of the colour tables' = xterm's 256colres/88colres definitions as re-derived in xterm_colors.py. Strings readable only through Python int() leniency (h+5, h007) are a grey zone: accept or AttrSpecError, nothing else.",
+        "DESIGN.md §3 C18, §8",
+    ),
+    "C19": (
+        "exploration",
+        "invariant monitor with spy children: partition arithmetic of Columns / Pile / Padding / Filler / Overlay / GridFlow is driven over exhaustive small-integer option spaces and every clause of the statement is asserted on what the spy children were actually handed and on glyph positions of the rendered canvas",
+        "Exhaustive (shuffled, so a budget overrun leaves a uniform sample) over <=4 columns/items x given/pack/weight kinds x dividechars x min_width x focus x sizes 1..24, align/valign kinds x percentages x "
+        "width/height kinds x margins for Padding/Filler/Overlay, GridFlow cell geometry; random beyond. One counter per clause; inputs for which urwid emits a WidgetWarning are skipped_invalid.",
+        "Statement covers given >= 1 and positive weights; zero weights / zero given only for 'no exception but the documented one, no negative size'. Proportionality not judged when min_width binds. 'Remaining space otherwise' accepts the documented squeeze-margins-first behaviour.",
+        "DESIGN.md §3 C19, §8",
+    ),
 }
 
 NA_REASON = "check not built yet in this round (see DESIGN.md §6 build order); no claim is made"
